@@ -248,7 +248,45 @@ pub fn check_ops(ctx: &mut Ctx, ops: &[Op], creds: &RefCreds) {
                 break;
             }
         }
-        (problems, b.build(), b.byte_len(), model, refused)
+        // the final state through the other serialisation paths as well (a caller's reused buffer,
+        // the owned copy, a clone): "the serialised message is accepted by the parser with valid
+        // integrity and fingerprint" holds for whatever path serialises it
+        let built = b.build();
+        let mut alts: Vec<(&'static str, Vec<u8>)> = vec![];
+        for (how, fill) in [("write_into(0xA5-filled)", 0xA5u8), ("write_into(0xFF-filled)", 0xFF)] {
+            let mut dest = vec![fill; built.len() + 8];
+            match b.write_into(&mut dest) {
+                Ok(n) => {
+                    dest.truncate(n);
+                    alts.push((how, dest));
+                }
+                Err(_) => alts.push((how, vec![])),
+            }
+        }
+        alts.push(("clone().build()", b.clone().build()));
+        {
+            let o = b.clone().into_owned();
+            let mut dest = vec![0x5Au8; built.len()];
+            let n = o.write_into(&mut dest).unwrap_or(0);
+            dest.truncate(n);
+            alts.push(("into_owned().write_into(0x5A-filled)", dest));
+        }
+        for (how, bytes) in alts {
+            if bytes != built && problems.is_empty() {
+                let first = bytes.iter().zip(built.iter()).position(|(a, b)| a != b);
+                let verdict = match Message::from_bytes(&bytes) {
+                    Ok(m) => format!("parses, validate_integrity = {:?}", m.validate_integrity(&icreds).map_err(|e| format!("{e:?}"))),
+                    Err(e) => format!("parser refuses it: {e:?}"),
+                };
+                problems.push((
+                    "serialised-final-state-accepted".into(),
+                    how.into(),
+                    "the same well-formed, validly sealed message whichever way it is serialised".into(),
+                    format!("{how}: {} bytes, first difference from build() at {first:?}; {verdict}", bytes.len()),
+                ));
+            }
+        }
+        (problems, built, b.byte_len(), model, refused)
     });
     let (problems, bytes, bl, model, refused) = match res {
         Err(p) => {
